@@ -335,6 +335,7 @@ func reorgProperty(rt *rapid.T, ev *evid.Rec, o machineOpts, prop string) {
 			m.label("pruned")
 		case 7:
 			if rapid.IntRange(0, 2).Draw(rt, "restart") == 0 {
+				m.reconfigure()
 				if err := w.Restart(); err != nil {
 					rt.Fatalf("VERIF-INCONCLUSIVE restart: %v", err)
 				}
